@@ -510,6 +510,9 @@ func MetaDataKVHandler(resHolder *SearchResult, attrGetter AttributeGetter, addi
 				resHolder.Err = err
 				return false
 			}
+			if val == nil { // the object has no such attribute
+				continue
+			}
 			if collected[i], err = restoreAttributeValue(attrs[i], val); err != nil {
 				resHolder.Err = err
 				return false
